@@ -6,6 +6,7 @@ import MosnVerif.Lemmas.PoolH2Steps
 import MosnVerif.Lemmas.PoolWinLedger
 import MosnVerif.Lemmas.PoolWinWitness
 import MosnVerif.Lemmas.PoolMxWin  -- (mux6 section at the end of the file)
+import MosnVerif.Lemmas.GaugeFlags  -- (c10r7 section at the end of the file)
 /-!
 # C10 — circuit-breaker and active-gauge accounting is conserved (property theorems only)
 
@@ -601,3 +602,89 @@ end MxPoolLedger
 /-! ### ===== END mux6 ===== -/
 
 end MosnVerif.Props.C10
+
+/-! ===================================================================================================================
+## c10r7 — the request gauges for EVERY valuation of the request-info flags (begin of the c10r7 section)
+
+`newActiveStream` counts every request up on the proxy-global and the per-listener downstream `request_active` gauge;
+`requestMetrics` (run once by `cleanStream`) counts them down — next to a block of per-request metrics that IS nested
+under `IsHealthCheck()`.  `Gen.GaugeSites` regenerates every counter / gauge movement of pkg/proxy and of the connection
+pools with the conditions it is nested under (enclosing `if`s, early-return guards, switch clauses, loops, closures) and
+the call sites of the carrying functions.  The theorems below hold for every valuation `ρ₀` of the condition atoms when
+the request is created and every (independent: filters may set flags in between) valuation `ρ₁` when it is cleaned.
+-/
+namespace MosnVerif.Props.C10
+section C10r7
+open MosnVerif.Gen.GaugeSites MosnVerif.Model.GaugeFlags MosnVerif.Lemmas.GaugeFlags
+open MosnVerif.Model.Downstream
+
+/-- **gauge_pairs_condition_matched**: in the regenerated table every movement of a downstream gauge in downstream.go is
+an unconditional unit movement — `+1` in `newActiveStream`, `-1` in `requestMetrics`, one pair per owner (proxy-global,
+per-listener) — and the two functions are entered once per request (`newActiveStream` from `NewStreamDetect` only,
+`requestMetrics` from `cleanStream` only, under nothing but the once-guard on `downstreamCleaned`) -/
+theorem gauge_pairs_condition_matched : pairsOK moves = true ∧ callsOK calls = true := by decide
+
+/-- the value of a request's share of the gauge, computed from the regenerated movements, for EVERY valuation of the
+request-info flags at creation and at clean: 1 until the stream is cleaned, 0 afterwards -/
+theorem request_gauge_every_flag (ρ₀ ρ₁ : Val) (o : Owner) (ho : o = .proxy ∨ o = .listener) (cleaned : Bool) :
+    gaugeAfter moves ρ₀ ρ₁ o reqGauge cleaned = if cleaned then 0 else 1 := by
+  rcases ho with rfl | rfl <;> unfold gaugeAfter
+  · rw [delta_uncond ρ₀ (fun _ => false) _ (by decide), delta_uncond ρ₁ (fun _ => false) _ (by decide)]
+    cases cleaned <;> decide
+  · rw [delta_uncond ρ₀ (fun _ => false) _ (by decide), delta_uncond ρ₁ (fun _ => false) _ (by decide)]
+    cases cleaned <;> decide
+
+/-- **ledger_exact_flags**: `ledger_exact` with the downstream gauge computed from the regenerated movements — in every
+reachable state of the downstream machine (every configuration, ambient load, schedule), for both owners and EVERY flag
+valuation, the gauge the Go code keeps is the machine's `downActive` -/
+theorem ledger_exact_flags (c : Cfg) (ar aq : Nat) (l : List Label) (ρ₀ ρ₁ : Val) (o : Owner) (ho : o = .proxy ∨ o = .listener) :
+    gaugeAfter moves ρ₀ ρ₁ o reqGauge (reach c ar aq l).cleaned = (reach c ar aq l).downActive ∧
+    (reach c ar aq l).downActive = (if (reach c ar aq l).cleaned then 0 else 1) := by
+  refine ⟨?_, (ledger_exact c ar aq l).2.2.2⟩
+  rw [request_gauge_every_flag _ _ _ ho, (ledger_exact c ar aq l).2.2.2]
+
+/-- **quiescent_zero_flags**: once the stream is cleaned both downstream gauges are back at zero whatever flags the
+request carried (health check, failed, response code, protocol …), with the counters of `quiescent_zero` -/
+theorem quiescent_zero_flags (c : Cfg) (ar aq : Nat) (l : List Label) (h : (reach c ar aq l).cleaned = true)
+    (ρ₀ ρ₁ : Val) (o : Owner) (ho : o = .proxy ∨ o = .listener) :
+    gaugeAfter moves ρ₀ ρ₁ o reqGauge (reach c ar aq l).cleaned = 0 ∧
+    (reach c ar aq l).retries = ar ∧ (reach c ar aq l).requests = aq ∧ (reach c ar aq l).upActive = 0 := by
+  obtain ⟨h1, h2, h3, _⟩ := quiescent_zero c ar aq l h
+  refine ⟨?_, h1, h2, h3⟩
+  rw [request_gauge_every_flag _ _ _ ho, h]; rfl
+
+/-- the hypothesis of `quiescent_zero_flags` is satisfiable by a non-trivial schedule (a retried attempt, then a 200),
+and in that state the gauge computed from the table under a health-check valuation at clean time is 0 -/
+example : (reach { retryOn := true, numRetries := 1, maxRetries := 2 } 1 0
+    (List.replicate 12 .work ++ [.upResp 0 503 false false] ++ List.replicate 5 .work ++ [.upResp 1 200 false false] ++
+      List.replicate 4 .work)).cleaned = true := by decide
+example : gaugeAfter moves (valOf {}) (valOf { hc := true, failed := true }) .listener reqGauge true = 0 := by decide
+
+/-- **pool_request_gauge_unconditional**: in the five connection pools every movement of the upstream `request_active`
+gauge is a unit movement, host and cluster gauge move together, and every DECREMENT is unconditional inside the pool's
+destroy handler: no response code and no request-info flag decides whether a finished request is given back -/
+theorem pool_request_gauge_unconditional : poolOK moves = true := by decide
+
+/-- the seeded class: the countdown moved under `!IsHealthCheck()` -/
+def hcTable : List Move := [
+  ⟨dsFile, startFn, .proxy, reqGauge, .inc, "1", true, []⟩,
+  ⟨dsFile, startFn, .listener, reqGauge, .inc, "1", true, []⟩,
+  ⟨dsFile, endFn, .proxy, reqGauge, .dec, "1", true, [⟨true, "s.requestInfo.IsHealthCheck()"⟩]⟩,
+  ⟨dsFile, endFn, .listener, reqGauge, .dec, "1", true, [⟨true, "s.requestInfo.IsHealthCheck()"⟩]⟩]
+
+/-- negation witness: with the decrement under `!healthCheck` the pairing check fails, an ordinary request still returns
+to zero, and a request a filter flagged as health check AFTER it was counted leaves both gauges at 1 for ever -/
+theorem hc_conditional_decrement_leaks :
+    pairsOK hcTable = false ∧
+    gaugeAfter hcTable (valOf {}) (valOf {}) .proxy reqGauge true = 0 ∧
+    gaugeAfter hcTable (valOf {}) (valOf { hc := true }) .proxy reqGauge true = 1 ∧
+    gaugeAfter hcTable (valOf {}) (valOf { hc := true }) .listener reqGauge true = 1 := by decide
+
+/-- negation witness for the pools: an upstream decrement under a response-code test is outside the class -/
+theorem pool_conditional_decrement_rejected :
+    poolOK (moves.map fun m => if m.metric == "UpstreamRequestActive" && m.op == .dec && m.file == "pkg/stream/http/connpool.go"
+              then { m with conds := [⟨false, "code < 500"⟩] } else m) = false := by decide
+
+end C10r7
+end MosnVerif.Props.C10
+/-! (end of the c10r7 section) -/
